@@ -1506,17 +1506,17 @@ std::ostream& expression_t::print(std::ostream& os, bool old) const
         break;
 
     case FORALL:
-        os << "forall(" << get(0).get_symbol().get_name() << ':' << get(0).get_symbol().get_type().str() << ") ";
+        os << "forall(" << get(0).get_symbol().get_name() << ':' << get(0).get_symbol().get_type().declaration() << ") ";
         get(1).print(os, old);
         break;
 
     case EXISTS:
-        os << "exists(" << get(0).get_symbol().get_name() << ':' << get(0).get_symbol().get_type().str() << ") ";
+        os << "exists(" << get(0).get_symbol().get_name() << ':' << get(0).get_symbol().get_type().declaration() << ") ";
         get(1).print(os, old);
         break;
 
     case SUM:
-        os << "sum(" << get(0).get_symbol().get_name() << ':' << get(0).get_symbol().get_type().str() << ") ";
+        os << "sum(" << get(0).get_symbol().get_name() << ':' << get(0).get_symbol().get_type().declaration() << ") ";
         get(1).print(os, old);
         break;
 
